@@ -4,8 +4,8 @@ import re
 import subprocess
 from concurrent.futures import ThreadPoolExecutor
 
-COQDIR = "/var/tmp/agents/agg/coq"
-TMP = "/var/tmp/agents/agg/tmp"
+COQDIR = os.environ.get("AGGDIFF_COQDIR", "/verif/coq")
+TMP = os.environ.get("AGGDIFF_TMP", "/verif/tmp")
 
 HEADER = """From Coq Require Import List NArith ZArith Floats String.
 From FS Require Import lib.Str lib.Res lib.Dec lib.F64 gen.FuncGen model.Agg.
